@@ -63,7 +63,7 @@ static void runJob(const Job& j, const std::string* replay) {
 	auto after = [&](const vsched::Result& x) { vf::add(C_EXEC); vf::add(C_POINTS, x.points.size()); if (x.preemptions) vf::add(W_PREEMPT); if (vnet::open_fds()) verdict += fmt("%d descriptor(s) left open; ", vnet::open_fds()); std::string sig = "http_exchange"; if (verdict.compare(0, 5, "[sig=") == 0) sig = verdict.substr(5, verdict.find(']') - 5); if (!verdict.empty()) vf::violation(sig, j.name + ": " + verdict + (x.choices.size() < 500 ? "schedule " + x.trace() : fmt("schedule of %d choices", (int)x.choices.size())), j.name + "|" + x.trace()); };
 	vsched::set_early_timeouts(false);
 	if (replay) { vsched::Result x = vsched::run_once(vsched::parse_schedule(*replay), body, 200000); after(x); }
-	else { double t0 = vf::now_s(); vsched::ExploreStats st = vsched::explore(body, after, j.bound, 0, 200000); vf::add(C_JOBS); vf::add(C_EVAL); vf::add(C_DIST); if (getenv("VF_DEBUG")) if (FILE* df = fopen(getenv("VF_DEBUG"), "a")) fprintf(df, "JOB %s exec %llu maxpts %llu %.1fs\n", j.name.c_str(), (unsigned long long)st.executions, (unsigned long long)st.max_points, vf::now_s() - t0), fclose(df); }
+	else { double t0 = vf::now_s(); vsched::ExploreStats st = vsched::explore(body, after, j.bound, 0, 200000); vf::add(C_JOBS); vf::add(C_EVAL); vf::add(C_DIST); { static int cst = vf::counter("states"); vf::add(cst, st.distinct_states); } if (getenv("VF_DEBUG")) if (FILE* df = fopen(getenv("VF_DEBUG"), "a")) fprintf(df, "JOB %s exec %llu maxpts %llu %.1fs\n", j.name.c_str(), (unsigned long long)st.executions, (unsigned long long)st.max_points, vf::now_s() - t0), fclose(df); }
 	vsched::set_early_timeouts(true);
 }
 
@@ -158,29 +158,30 @@ static void rawSend(Socket& s, const std::string& bytes, const std::vector<int>&
 static std::string rawReadAll(Socket& s) { std::string r; char buf[64]; for (;;) { if (!s.waitInput(5.0)) break; int a = s.available(); if (a <= 0) break; int n = s.read(buf, a < 64 ? a : 64); if (n <= 0) break; r.append(buf, n); } return r; }
 // S4/S6: raw client -> library server: request bytes cut at `cut`, optional chunked body, optional second pipelined request
 static Job rawClientJob(int variant, int cut, int bound) {
-	Job j; j.name = fmt("rawclient.%d.%d.b%d", variant, cut, bound); j.bound = bound; if (variant == 2) j.cap = 4096; // a pipelining client that does not read while it writes needs room for both requests
+	Job j; j.name = fmt("rawclient.%d.%d.b%d", variant, cut, bound); j.bound = bound; if (variant >= 2) j.cap = 4096; // a pipelining client that does not read while it writes needs room for both requests
 	j.body = [variant, cut]() {
 		std::string e; Srv srv; Socket lst; lst.bind("127.0.0.1", 8000); lst.listen(2);
 		Acceptor acc; acc.srv = &srv; acc.lst = &lst; acc.n = 1; acc.start();
 		std::string body = bodyOf(9, 3), req, second;
 		if (variant == 0) req = "POST /echo?code=200 HTTP/1.1\r\nHost: h\r\nContent-Length: 9\r\nConnection: close\r\n\r\n" + body;
 		else if (variant == 1) { req = "PUT /echo?code=201 HTTP/1.1\r\nHost: h\r\nTransfer-Encoding: chunked\r\nConnection: close\r\n\r\n4\r\n" + body.substr(0, 4) + "\r\n5\r\n" + body.substr(4) + "\r\n0\r\n\r\n"; vf::add(W_CHUNKED_REQ); }
-		else { req = "POST /echo?code=200 HTTP/1.1\r\nHost: h\r\nContent-Length: 9\r\nConnection: keep-alive\r\n\r\n" + body; second = "GET /len?n=3 HTTP/1.1\r\nHost: h\r\nConnection: close\r\n\r\n"; vf::add(W_KEEPALIVE); }
+		else if (variant == 2) { req = "POST /echo?code=200 HTTP/1.1\r\nHost: h\r\nContent-Length: 9\r\nConnection: keep-alive\r\n\r\n" + body; second = "GET /len?n=3 HTTP/1.1\r\nHost: h\r\nConnection: close\r\n\r\n"; vf::add(W_KEEPALIVE); }
+		else { req = "POST /echo?code=200 HTTP/1.1\r\nHost: h\r\nTransfer-Encoding: chunked\r\nConnection: keep-alive\r\n\r\n4\r\n" + body.substr(0, 4) + "\r\n5\r\n" + body.substr(4) + "\r\n0\r\n\r\n"; second = "GET /len?n=3 HTTP/1.1\r\nHost: h\r\nConnection: close\r\n\r\n"; vf::add(W_KEEPALIVE); vf::add(W_CHUNKED_REQ); }
 		std::string resp;
 		{
 			Socket c; if (!c.connect("127.0.0.1", 8000)) e += "raw client could not connect; ";
 			else { std::vector<int> cuts; if (cut > 0 && cut < (int)(req + second).size()) cuts.push_back(cut); rawSend(c, req + second, cuts); resp = rawReadAll(c); c.close(); }
 		}
 		acc.join(); lst.close();
-		size_t expect = variant == 2 ? 2 : 1;
+		size_t expect = variant >= 2 ? 2 : 1;
 		if (srv.seen.size() != expect) e += fmt("handler invoked %d times instead of %d; ", (int)srv.seen.size(), (int)expect);
-		else { e += cmpSeen(srv.seen[0], variant == 1 ? "PUT" : "POST", "/echo", variant == 1 ? "code=201" : "code=200", body); if (variant == 2) e += cmpSeen(srv.seen[1], "GET", "/len", "n=3", ""); }
+		else { e += cmpSeen(srv.seen[0], variant == 1 ? "PUT" : "POST", "/echo", variant == 1 ? "code=201" : "code=200", body); if (variant >= 2) e += cmpSeen(srv.seen[1], "GET", "/len", "n=3", ""); }
 		// the response(s) on the wire: status line and exact body bytes
 		std::string st = variant == 1 ? "HTTP/1.1 201" : "HTTP/1.1 200";
 		if (resp.compare(0, st.size(), st) != 0) e += "first response status line is '" + resp.substr(0, 20) + "'; ";
 		size_t hb = resp.find("\r\n\r\n");
 		if (hb == std::string::npos || resp.compare(hb + 4, body.size(), body) != 0) e += "echoed body bytes differ on the wire; ";
-		if (variant == 2) { size_t p2 = resp.find("HTTP/1.1 200", hb == std::string::npos ? 0 : hb + 4 + body.size()); if (p2 == std::string::npos) e += "no response to the second pipelined request; "; else { size_t h2 = resp.find("\r\n\r\n", p2); if (h2 == std::string::npos || resp.substr(h2 + 4) != bodyOf(3, 2)) e += "second response body differs; "; } }
+		if (variant >= 2) { size_t p2 = resp.find("HTTP/1.1 200", hb == std::string::npos ? 0 : hb + 4 + body.size()); if (p2 == std::string::npos) e += "no response to the second pipelined request; "; else { size_t h2 = resp.find("\r\n\r\n", p2); if (h2 == std::string::npos || resp.substr(h2 + 4) != bodyOf(3, 2)) e += "second response body differs; "; } }
 		return e;
 	};
 	return j;
@@ -263,6 +264,7 @@ int main(int argc, char** argv) {
 	C_EXEC = vf::counter("traces"); C_POINTS = vf::counter("transitions"); C_JOBS = vf::counter("scenarios"); C_EVAL = vf::counter("evaluations"); C_DIST = vf::counter("distinct_nontrivial"); vf::counter("states");
 	W_PREEMPT = vf::counter("w.executions_with_preemption"); W_RANGE206 = vf::counter("w.satisfiable_ranges"); W_RANGE416 = vf::counter("w.unsatisfiable_ranges"); W_JSON = vf::counter("w.json_exchanges"); W_KEEPALIVE = vf::counter("w.keepalive_pipelined"); W_TWOCLIENTS = vf::counter("w.two_concurrent_clients"); W_CHUNKED_REQ = vf::counter("w.chunked_requests"); W_CHUNKED_RESP = vf::counter("w.chunked_responses"); W_BIG = vf::counter("w.large_bodies");
 	vsched::set_fatal_handler(onFatal);
+	vsched::set_state_probe(vnet::state_hash);
 	g_root = vf::scratch_dir() + "/root"; if (system(("mkdir -p '" + g_root + "' && printf 012345 > '" + g_root + "/f.txt'").c_str())) {}
 	bool T = vf::opt.thorough();
 	std::vector<Job> jobs;
@@ -275,7 +277,7 @@ int main(int argc, char** argv) {
 		for (int n = 0; n <= (T ? 12 : 6); n += 3) jobs.push_back(jsonJob(n, 1));
 		jobs.push_back(rangeJob(-1, 0, 1));
 		for (int b = 0; b <= 6; b++) for (int e = 0; e <= 6; e++) jobs.push_back(rangeJob(b, e, (b + e) % 4 == 0 ? 1 : 0));
-		for (int v = 0; v < 3; v++) { int n = v == 0 ? 87 : v == 1 ? 110 : 140; for (int cut = 0; cut < n; cut++) jobs.push_back(rawClientJob(v, cut, cut % (T ? 3 : 9) == 0 ? 1 : 0)); }
+		for (int v = 0; v < 4; v++) { int n = v == 0 ? 87 : v == 1 ? 110 : v == 2 ? 140 : 170; int first = v == 3 ? 117 : -100; for (int cut = 0; cut < n; cut++) jobs.push_back(rawClientJob(v, cut, (cut % (T ? 3 : 9) == 0 || (cut > first - 14 && cut <= first + 2)) ? 1 : 0)); }
 		for (int v = 0; v < 3; v++) { int n = v == 0 ? 56 : v == 1 ? 75 : 44; for (int cut = 0; cut < n; cut++) jobs.push_back(rawServerJob(v, cut, cut % (T ? 2 : 8) == 0 ? 1 : 0)); }
 		for (int len = 0; len <= (T ? 9 : 3); len += 3) jobs.push_back(twoClientsJob(len, T ? 1 : 0));
 	}
@@ -286,7 +288,6 @@ int main(int argc, char** argv) {
 		return vf::finish();
 	}
 	vf::parallel(jobs.size(), [&](uint64_t i) { if (vf::deadline_passed()) { vf::cap_hit("deadline"); return; } runJob(jobs[i], 0); });
-	vf::add(vf::counter("states"), vf::get(C_POINTS));
 	vf::setinfo("scenarios", fmt("%d", (int)jobs.size()));
 	if (!big) { vf::sample("echo.PUT.13.201: Http::request PUT with a 13-byte body (CR LF NUL 0xff) over a 4-byte pipe, send block 8 / receive block 5, all schedules with <= 1 preemption"); vf::sample("range.2.2: GET /f.txt with Range: bytes=2-2; rawclient chunked PUT cut at every 3rd byte; rawserver chunked 203 response cut at every 2nd byte"); }
 	else vf::sample("big.128001: PUT of 128001 bytes with the real 128000/16000 block sizes over a 64 KiB pipe");
